@@ -35,6 +35,7 @@ FIXED = {
  "fix: media download of an object marked gzip": ("B4", ["C20"], "media GET of an object marked contentEncoding gzip whose bytes are not gzip panicked (nil gzip reader)", "harness/internal/robust/gcs.go Directed()"),
  "fix: a metadata patch whose body is the JSON value null": ("R2", ["C20"], "PATCH with the body null panicked (nil object)", "harness/internal/robust/gcs.go Directed()"),
  "fix: GetTable, CreateTable and ModifyColumnFamilies return a copy": ("A16b", ["C20"], "schema changes while fetching the schema: the live definition was encoded while ModifyColumnFamilies changed it — fatal 'concurrent map iteration and map write'", "robustmix (concurrent mix child process)"),
+ "fix: CreateTable copies the definition for its response before": ("A16c", ["C20"], "CreateTable copied the stored definition for its response after releasing the server lock, while a ModifyColumnFamilies on the new table could already write the family map — concurrent map read and write (data race; fatal when it hits)", "robustmix (concurrent mix child process, -race build): creator/deleter against a modifier of the same table"),
  "fix: the memory store creates and fetches a bucket": ("B11", ["C20"], "memory store: an upload or copy racing a bucket deletion dereferenced a nil bucket", "robustmix (concurrent mix child process)"),
  "fix: an upload whose bucket is deleted": ("R3", ["C20"], "an upload whose bucket was deleted before the response was built dereferenced nil metadata", "robustmix (concurrent mix child process)"),
  "fix: compose without a destination": ("B3", ["C15", "C20"], "compose without a destination resource panicked (nil dereference)", "corpus/gcs/B3-compose-without-destination.json"),
